@@ -28,7 +28,7 @@ def run(c):
               "Contains() rules whose outer pattern binds none / some / all of the sub-pattern's variables (binder and free-variable "
               "rules for the same name, random order) + custom bytecode filters with fmt.Sprintf calls of arity 0-3 inside "
               "if / else / && / || / loop / helper-function positions followed by a call of the same or another arity; plus, per "
-              "(variant, file), the whole-file run vs. runs over each top-level declaration alone; every report is one evaluation; "
+              "(variant, file), the whole-file run vs. runs over each top-level declaration alone and over each top-level statement of every function body alone; every report is one evaluation; "
               "a case is non-trivial and distinct by (state kind, dirty?, panicking?, previous call's file = this file?, previous "
               "call panicked?), by generated rule kind that reported in a history, and by (rule kind, file) in the locality runs")
     c.trusted += walkerlib.TRUSTED + [
@@ -79,14 +79,15 @@ def run(c):
                     if k != "fixed":
                         c.nontriv(("local", k.split("/same")[0], o["calls"][0]["file"]))
                 c.coverage["locality_runs"] = c.coverage.get("locality_runs", 0) + 1
+                c.coverage["statement_level_locality_runs"] = c.coverage.get("statement_level_locality_runs", 0) + o.get("panics", 0)
                 if o.get("mismatch") and o["mismatch"].startswith("the run on a fresh"):
                     c.fail("oracle", "Run of a loaded rule set over a type-checked file fails inside the engine: " + o["mismatch"],
                            input={"rules": o.get("rules"), "file": (o.get("srcs") or [None])[0], "seed": seed, "variant": o.get("variant")},
                            expected="a report sequence", observed=o["mismatch"])
                 elif o.get("mismatch"):
-                    c.fail("oracle", "the reports inside a top-level declaration depend on the declarations visited before it in the same run: " + o["mismatch"],
+                    c.fail("oracle", "the reports inside a top-level declaration / a top-level statement of a function body depend on what was visited before it in the same run: " + o["mismatch"],
                            input={"rules": o.get("rules"), "file": (o.get("srcs") or [None])[0], "seed": seed, "variant": o.get("variant")},
-                           expected="the run over the whole file reports, declaration by declaration, what a run over a file with only that declaration reports",
+                           expected="the run over the whole file reports, declaration by declaration (statement by statement), what a run over a file with only that declaration (only that statement in its function) reports",
                            observed=o["mismatch"])
                 continue
             n += 1
